@@ -6,6 +6,7 @@ import io
 import locale
 import os
 import sys
+import warnings
 
 import numpy as np
 
@@ -62,6 +63,7 @@ def fingerprint():
         "open": id(builtins.open),
         "io_open": id(io.open),
         "dir_parser": id(getattr(D, "DEFAULT_PARSER", None)),
+        "warnings_filters": (len(warnings.filters), repr(warnings.filters[:3])),
     }
 
 
